@@ -17,7 +17,7 @@ def expected(args):
     return tuple(args)
 
 
-def async_scenario(env, ack_args, coro_handlers=True):
+def async_scenario(env, ack_args, coro_handlers=True, park_send=False):
     def scenario(loop):
         w = ServerWorld(is_async=True, loop=loop, namespaces=['/'])
         sio = w.sio
@@ -26,6 +26,15 @@ def async_scenario(env, ack_args, coro_handlers=True):
         sock = w.transports[t]
         sid = w.sid_of(t, '/')
         w.drain_all()
+        if park_send:
+            # the transport write of the event is a suspension point: the
+            # client may answer before call() gets to wait for the answer
+            real_send = sock.send
+
+            async def send(pkt):
+                await real_send(pkt)
+                await loop.point('send')
+            sock.send = send
         res = {}
         marks = []
 
@@ -224,7 +233,8 @@ def _teq(a, b):
 
 
 def job(args):
-    env, ack_args = args
+    env, ack_args = args[:2]
+    park = len(args) > 2 and args[2]
     common.setup_imports()
     viols = []
     outcomes = set()
@@ -239,21 +249,24 @@ def job(args):
                 viols.append((key, msg, {'replay': {
                     'module': 'mc.checks.c06_call', 'func': 'replay',
                     'args': [list(env), common.jsonable(ack_args),
-                             [c[1] for c in choices]]}}))
-    st = e2.explore(async_scenario(env, ack_args), on)
+                             [c[1] for c in choices], park]}}))
+    st = e2.explore(async_scenario(env, ack_args, park_send=park), on)
     return env, st, viols, len(outcomes), sample
 
 
-def replay(env, ack_args, prefix):
+def replay(env, ack_args, prefix, park=False):
     common.setup_imports()
     ack_args = common.unjson(ack_args)
-    choices, out = e2.run_one(async_scenario(tuple(env), ack_args),
+    choices, out = e2.run_one(async_scenario(tuple(env), ack_args,
+                                             park_send=park),
                               list(prefix))
     return judge(tuple(env), ack_args, out)
 
 
 def run(tier, seed, result):
     jobs = [(env, a) for env in ENVS for a in ACKS]
+    # the same environments with the transport write as a suspension point
+    jobs += [(env, ACKS[1], True) for env in ENVS]
     total = 0
     nout = 0
     for env, st, viols, n, sample in pmap(job, jobs):
